@@ -200,7 +200,61 @@ def gen_pe_pair_seeds(sdir, seed=1, limit=4000):
     return kept
 
 
-SEED_GENERATORS = {"rules": gen_rule_seeds, "pe_pairs": gen_pe_pair_seeds}
+def gen_elf_field_seeds(sdir, seed=1, limit=800):
+    """Systematic variants of the ELF seeds in `sdir`: the offset and size fields of every section and
+    program header set to values at and around the end of the data and to values that make
+    `base + offset + size` wrap around.  A pseudo-random sample of `limit` variants is kept."""
+    import struct
+    variants = []
+    for path in sorted(glob.glob(os.path.join(sdir, "*"))):
+        try:
+            d = open(path, "rb").read()
+        except OSError:
+            continue
+        n = len(d)
+        if n < 0x40 or n > 400000 or d[:4] != b"\x7fELF" or d[4] not in (1, 2) or d[5] not in (1, 2):
+            continue
+        is64, en = d[4] == 2, "<" if d[5] == 1 else ">"
+        W, fmt, mask = (8, "Q", (1 << 64) - 1) if is64 else (4, "I", (1 << 32) - 1)
+        if is64:
+            phoff, shoff = struct.unpack_from(en + "QQ", d, 0x20)
+            phent, phnum, shent, shnum = struct.unpack_from(en + "HHHH", d, 0x36)
+            sh_fields, ph_fields = (24, 32), (8, 32)     # sh_offset, sh_size; p_offset, p_filesz
+        else:
+            phoff, shoff = struct.unpack_from(en + "II", d, 0x1c)
+            phent, phnum, shent, shnum = struct.unpack_from(en + "HHHH", d, 0x2a)
+            sh_fields, ph_fields = (16, 20), (4, 16)
+        tables = [(shoff, shent, min(shnum, 64), sh_fields, 64 if is64 else 40), (phoff, phent, min(phnum, 32), ph_fields, 56 if is64 else 32)]
+        for base, ent, num, fields, want in tables:
+            if not base or ent != want:
+                continue
+            for i in range(num):
+                for fo in fields:
+                    at = base + i * ent + fo
+                    if at + W > n:
+                        continue
+                    old = struct.unpack_from(en + fmt, d, at)[0]
+                    for v in (mask, (0 - n) & mask, (mask - old) & mask, n, n - 1, (old + n) & mask, mask - 0xff):
+                        if v != old:
+                            variants.append((path, at, en + fmt, v))
+    if not variants:
+        return 0
+    order = sorted(range(len(variants)), key=lambda i: hashlib.sha1(b"elf/%d/%d" % (seed, i)).digest())
+    cache = {}
+    kept = 0
+    for i in order[:limit]:
+        path, at, f, v = variants[i]
+        if path not in cache:
+            cache = {path: open(path, "rb").read()}
+        b = bytearray(cache[path])
+        struct.pack_into(f, b, at, v)
+        with open(os.path.join(sdir, "zfield-%05d" % kept), "wb") as fp:
+            fp.write(b)
+        kept += 1
+    return kept
+
+
+SEED_GENERATORS = {"rules": gen_rule_seeds, "pe_pairs": gen_pe_pair_seeds, "elf_fields": gen_elf_field_seeds}
 
 
 def _fuzz_env(P, target, work, known_path, leaks=True):
@@ -283,6 +337,9 @@ def run_fuzz(pid, tier, seed, replay=None):
             if t.get("seed_gen") == "pe_pairs":
                 npairs = gen_pe_pair_seeds(sdir, seed, 1000 if tier == "quick" else 40000)
                 log("%s: %d systematic (table-at-end-of-data, count raised) variants added to the seeds" % (t["name"], npairs))
+            elif t.get("seed_gen") == "elf_fields":
+                nf = gen_elf_field_seeds(sdir, seed, 800 if tier == "quick" else 20000)
+                log("%s: %d systematic (offset / size fields at the end of the data and wrapping around) variants added to the seeds" % (t["name"], nf))
             elif t.get("seed_gen"):
                 SEED_GENERATORS[t["seed_gen"]](sdir)
             env["VERIF_SEED_DIR"] = sdir
